@@ -215,3 +215,8 @@ def run(R):
     from props.C13 import expiry_rules, quote_binding_rules
     expiry_rules(R, "C03")   # "no quote has expired" rests on what has_expired decides
     quote_binding_rules(R, "C03")   # "authentically signed by its claimed node", "this node's quote"
+    # the payment may be waived only for an *update of a record the node holds*: `already_exists` is a bare key test (a scratchpad
+    # and the transactions of one owner share a key), so the waiver rests on the store functions refusing a held record of another
+    # kind — get_local_transactions / register_validation answer only with the decoded local copy
+    import props.C07 as _C07
+    R.import_rules("C07", _C07.run, ["C07.tx.local", "C07.reg.merge", "C07.reg.merged", "C07.reg.store"], "C03.exists")
